@@ -117,6 +117,8 @@ type Exec struct {
 	timeNow    *Term
 	initDone   map[*ssa.Package]bool
 	lastAfterFunc *Term
+	onUnwind   int
+	wedgeMsg   string
 	models     []*cachedModel
 	known      map[*Term]bool // facts implied by the path condition (syntactic)
 	ModelHits  int
